@@ -305,6 +305,43 @@ func c08Run(c c08Cell, values int) (ds []keyed, info string) {
 			break
 		}
 	}
+	// value sources: each view is a private copy of the value it was made from.  Two views of two values must not share memory -
+	// the empty value included (a conversion that hands out a shared sentinel for it leaks writes from one view into the next)
+	if c.form == "val" && len(ds) == 0 {
+		for _, empty := range []bool{true, false} {
+			mk := func(k int) ap.Item {
+				if empty {
+					return reflect.New(c.src).Elem().Interface().(ap.Item)
+				}
+				return c08Populate(c.src, k).Elem().Interface().(ap.Item)
+			}
+			var r1, r2 interface{}
+			var e1, e2 error
+			if pi := evSafe(func() { r1, e1 = c.h.call(mk(3)) }); pi != nil || e1 != nil || r1 == nil {
+				continue
+			}
+			v1 := reflect.ValueOf(r1)
+			if v1.Kind() != reflect.Ptr || v1.IsNil() {
+				continue
+			}
+			// write through the first view, then view a second, independent value
+			if f := v1.Elem().FieldByName("ID"); f.IsValid() && f.CanSet() {
+				f.SetString("https://example.com/written-through-the-first-view")
+			}
+			if pi := evSafe(func() { r2, e2 = c.h.call(mk(3)) }); pi != nil || e2 != nil || r2 == nil {
+				continue
+			}
+			v2 := reflect.ValueOf(r2)
+			if v2.Kind() != reflect.Ptr || v2.IsNil() {
+				continue
+			}
+			if v1.Pointer() == v2.Pointer() {
+				ds = append(ds, keyed{key("shared-memory"), fmt.Sprintf("two views of two %s values (empty=%v) are the same pointer", c.src.Name(), empty)})
+			} else if f := v2.Elem().FieldByName("ID"); f.IsValid() && f.String() == "https://example.com/written-through-the-first-view" {
+				ds = append(ds, keyed{key("shared-memory"), fmt.Sprintf("a write through one view of a %s value (empty=%v) is read through the view of another", c.src.Name(), empty)})
+			}
+		}
+	}
 	return ds, outcome
 }
 
